@@ -320,3 +320,20 @@ def header_exprs(node: Node) -> typing.List[ast.AST]:
   if isinstance(st, ast.ClassDef):
     return list(st.decorator_list) + list(st.bases)
   return [st]
+
+
+def fact_holds_at(cfg: "CFG", target: int, establishes: typing.Callable[[ast.AST, bool], bool]) -> bool:
+  """True when every path from the entry to node `target` crosses a condition edge (test, polarity)
+  for which establishes(test, polarity) is true - i.e. the fact is known whenever `target` runs."""
+  seen, stack = {cfg.entry}, [cfg.entry]
+  while stack:
+    n = stack.pop()
+    if n == target:
+      return False
+    for (s2, lab) in cfg.nodes[n].succ:
+      if isinstance(lab, tuple) and lab[0] == "cond" and establishes(lab[1], lab[2]):
+        continue
+      if s2 not in seen:
+        seen.add(s2)
+        stack.append(s2)
+  return target not in seen
